@@ -436,8 +436,8 @@ def run_ode_part(chk, tier, seed):
     chk.part("ODE InitCond permutation closure", records=len(scen_all), permuted_records_compared=checked)
 
     SC[:] = scen
-    sel = _pick(scen, 1 if quick else 2)
-    reps = 1 if quick else 3
+    sel = _pick(scen, 1)
+    reps = 1 if quick else 2
     orders = ORDER_KINDS if quick else ORDER_KINDS + ("shuffle3", "shuffle4", "shuffle5", "shuffle6")
     combos = [(lk, ok, rep) for lk in LABEL_KINDS for ok in orders for rep in range(reps)
               if not (lk == "identity" and (ok == "identity" or rep > 0))]
@@ -448,9 +448,9 @@ def run_ode_part(chk, tier, seed):
             if not applicable(e, sc):
                 continue
             grid = (0, 3, None) if e["disc"] else (0, 2, 5)
-            rates = [(0.5, 1.0)] if e["disc"] else ([(1.0, 1.0)] if quick else [(1.0, 1.0), (2.0, 0.5)])
+            rates = [(0.5, 1.0)] if e["disc"] else [(1.0, 1.0) if quick else (2.0, 0.5)]
             fulls = (True,) if e["full"] else (False,)
-            if not quick and e["full"]:
+            if not quick and e["full"] and e["call"] not in NODE_LEVEL:
                 fulls = (True, False)
             for (variant, nlkind) in variants(e, sc):
                 for weighted in ((False, True) if e["call"] in NODE_LEVEL else (False,)):
